@@ -17,6 +17,7 @@ import (
 	"crypto/rand"
 	"encoding/base64"
 	"encoding/json"
+	"encoding/pem"
 	"errors"
 	"fmt"
 	"io"
@@ -51,6 +52,7 @@ type reply struct {
 	status int
 	prob   string
 	nonce  []string // Replay-Nonce header fields, in order
+	body   string   // body token of a 2xx reply: <status>/<member>=<v>/…, "bad" = not JSON
 }
 
 type server struct {
@@ -107,19 +109,33 @@ func (s *server) RoundTrip(req *http.Request) (*http.Response, error) {
 	for _, v := range r.nonce {
 		h.Add("Replay-Nonce", v)
 	}
+	// polling loops sleep for Retry-After (1 s if it is absent or 0) and the default backoff adds it to
+	// its jitter: a negative value makes both return at once
+	h.Set("Retry-After", "-1")
 	body := "{}"
 	switch {
 	case r.prob != "":
 		body = fmt.Sprintf(`{"type":%q,"detail":"scripted"}`, r.prob)
 	case r.status >= 200 && r.status <= 299:
-		if kind == "dir" {
+		switch {
+		case kind == "dir":
 			nu := ""
 			if s.nurl {
 				nu = base + "nonce"
 			}
-			body = fmt.Sprintf(`{"newNonce":%q,"newAccount":"%sacct","newOrder":"%sorder","revokeCert":"%srevoke"}`, nu, base, base, base)
+			body = fmt.Sprintf(`{"newNonce":%q,"newAccount":"%sacct","newOrder":"%sorder","revokeCert":"%srevoke","newAuthz":"%snewauthz","keyChange":"%skeychange"}`, nu, base, base, base, base, base)
+		case r.body == "bad":
+			body = "this is neither JSON nor PEM"
+		case kind == "cert":
+			body = pemChain(r.body)
+		default:
+			body = bodyJSON(r.body)
 		}
-		h.Set("Location", base+kind+"/1")
+		if kind == "acct" {
+			h.Set("Location", base+"acct/1")
+		} else {
+			h.Set("Location", base+"loc")
+		}
 	default:
 		body = "this is not a problem document"
 	}
@@ -129,13 +145,117 @@ func (s *server) RoundTrip(req *http.Request) (*http.Response, error) {
 	return &http.Response{StatusCode: r.status, Status: strconv.Itoa(r.status), Header: h, Body: io.NopCloser(strings.NewReader(body)), Request: req, ProtoMajor: 1, ProtoMinor: 1}, nil
 }
 
+// bodyJSON renders a body token as the JSON object a CA would send; every member the token names is
+// present, every other optional member is absent.
+func bodyJSON(tok string) string {
+	f := strings.Split(tok, "/")
+	m := map[string]interface{}{}
+	if f[0] != "" {
+		m["status"] = f[0]
+	}
+	for _, kv := range f[1:] {
+		k, v, _ := strings.Cut(kv, "=")
+		n, _ := strconv.Atoi(v)
+		switch k {
+		case "e":
+			m["expires"] = time.Unix(int64(n), 0).UTC().Format(time.RFC3339)
+		case "w":
+			m["wildcard"] = v == "1"
+		case "c":
+			var cs []map[string]string
+			for i := 0; i < n; i++ {
+				cs = append(cs, map[string]string{"type": fmt.Sprintf("t%d", i), "url": base + "chal", "token": "tok"})
+			}
+			m["challenges"] = cs
+		case "i":
+			m["identifier"] = map[string]string{"type": "dns", "value": v}
+		case "z":
+			var us []string
+			for i := 0; i < n; i++ {
+				us = append(us, fmt.Sprintf("%sauthz/%d", base, i))
+			}
+			m["authorizations"] = us
+		case "f":
+			m["finalize"] = base + "fin"
+		case "crt":
+			m["certificate"] = base + "cert"
+		case "tok":
+			m["token"] = v
+		}
+	}
+	b, _ := json.Marshal(m)
+	return string(b)
+}
+
+func pemChain(tok string) string {
+	k := 1
+	for _, kv := range strings.Split(tok, "/") {
+		if v, ok := strings.CutPrefix(kv, "k="); ok {
+			k, _ = strconv.Atoi(v)
+		}
+	}
+	var sb strings.Builder
+	for i := 0; i < k; i++ {
+		pem.Encode(&sb, &pem.Block{Type: "CERTIFICATE", Bytes: []byte{0x30, 0x03, 0x02, 0x01, byte(i)}})
+	}
+	return sb.String()
+}
+
+func showAuthz(a *acme.Authorization) string {
+	s := a.Status
+	if !a.Expires.IsZero() {
+		s += fmt.Sprintf("/e=%d", a.Expires.Unix())
+	}
+	if a.Wildcard {
+		s += "/w=1"
+	}
+	if len(a.Challenges) > 0 {
+		s += fmt.Sprintf("/c=%d", len(a.Challenges))
+	}
+	if a.Identifier.Value != "" {
+		s += "/i=" + a.Identifier.Value
+	}
+	return s
+}
+
+func showOrder(o *acme.Order) string {
+	s := o.Status
+	if !o.Expires.IsZero() {
+		s += fmt.Sprintf("/e=%d", o.Expires.Unix())
+	}
+	if len(o.AuthzURLs) > 0 {
+		s += fmt.Sprintf("/z=%d", len(o.AuthzURLs))
+	}
+	if o.FinalizeURL != "" {
+		s += "/f=1"
+	}
+	if o.CertURL != "" {
+		s += "/crt=1"
+	}
+	return s
+}
+
+func showChal(c *acme.Challenge) string {
+	s := c.Status
+	if c.Token != "" {
+		s += "/tok=" + c.Token
+	}
+	return s
+}
+
 func classify(err error) string {
 	var ae *acme.Error
+	var aze *acme.AuthorizationError
+	var oe *acme.OrderError
 	switch {
 	case err == nil:
 		return "ok"
 	case errors.Is(err, acme.ErrAccountAlreadyExists):
 		return "exists"
+	case errors.Is(err, acme.ErrNoAccount):
+		return "noaccount"
+	case errors.As(err, &aze), errors.As(err, &oe):
+		return "invalid"
 	case errors.As(err, &ae):
 		p := ae.ProblemType
 		if p == "" {
@@ -176,7 +296,8 @@ func execHTTP(o hx.Op) string {
 			return s
 		}
 		var hdr []string
-		if nf := f[len(f)-1]; nf != "-" {
+		nf, bodyTok, _ := strings.Cut(f[len(f)-1], "@")
+		if nf != "-" {
 			for _, v := range strings.Split(nf, "+") {
 				if v == "~" {
 					v = ""
@@ -184,14 +305,18 @@ func execHTTP(o hx.Op) string {
 				hdr = append(hdr, strings.ReplaceAll(v, ".", " "))
 			}
 		}
-		srv.script = append(srv.script, reply{status: st, prob: un(strings.Join(f[1:len(f)-1], ":")), nonce: hdr})
+		srv.script = append(srv.script, reply{status: st, prob: un(strings.Join(f[1:len(f)-1], ":")), nonce: hdr, body: bodyTok})
 	}
 	ctx, cancel := context.WithCancel(context.Background())
 	defer cancel()
 	srv.cancel = cancel
-	bo, cancelAt, calls := o.Int("bo"), o.Int("cancel"), 0
+	cancelAt, calls := o.Int("cancel"), 0
 	c := &acme.Client{Key: key(), DirectoryURL: base + "dir", HTTPClient: &http.Client{Transport: srv}}
-	c.RetryBackoff = func(n int, _ *http.Request, _ *http.Response) time.Duration {
+	bo := 0
+	if o.Str("bo") != "nil" {
+		bo = o.Int("bo")
+	}
+	backoff := func(n int, _ *http.Request, _ *http.Response) time.Duration {
 		calls++
 		if calls == cancelAt {
 			cancel()
@@ -204,29 +329,106 @@ func execHTTP(o hx.Op) string {
 		}
 		return time.Millisecond
 	}
+	if o.Str("bo") != "nil" {
+		c.RetryBackoff = backoff // else the package default: with Retry-After: -1 it never grants a retry
+	}
 	if o.Str("kid") == "1" {
 		c.KID = acme.KeyID(base + "acct/1")
 	}
 	var res []string
+	certKey := key() // RevokeCert signed by "the certificate's key": any explicit key will do
 	for _, call := range o.List("calls") {
 		var err error
+		val := "" // rendering of the returned object, for calls that return one
 		switch call {
 		case "D":
 			_, err = c.Discover(ctx)
 		case "R":
 			err = c.RevokeAuthorization(ctx, base+"authz")
 		case "O":
-			_, err = c.AuthorizeOrder(ctx, acme.DomainIDs("example.org"))
+			var v *acme.Order
+			if v, err = c.AuthorizeOrder(ctx, acme.DomainIDs("example.org")); err == nil {
+				val = showOrder(v)
+			}
+		case "Q":
+			var v *acme.Order
+			if v, err = c.GetOrder(ctx, base+"order"); err == nil {
+				val = showOrder(v)
+			}
+		case "V":
+			var v *acme.Order
+			if v, err = c.WaitOrder(ctx, base+"order"); err == nil {
+				val = showOrder(v)
+			}
 		case "A":
-			_, err = c.Accept(ctx, &acme.Challenge{URI: base + "chal", Token: "t"})
+			var v *acme.Challenge
+			if v, err = c.Accept(ctx, &acme.Challenge{URI: base + "chal", Token: "t"}); err == nil {
+				val = showChal(v)
+			}
+		case "C":
+			var v *acme.Challenge
+			if v, err = c.GetChallenge(ctx, base+"chal"); err == nil {
+				val = showChal(v)
+			}
 		case "G":
-			_, err = c.GetAuthorization(ctx, base+"authz")
+			var v *acme.Authorization
+			if v, err = c.GetAuthorization(ctx, base+"authz"); err == nil {
+				val = showAuthz(v)
+			}
+		case "W":
+			var v *acme.Authorization
+			if v, err = c.WaitAuthorization(ctx, base+"authz"); err == nil {
+				val = showAuthz(v)
+			}
+		case "Z":
+			var v *acme.Authorization
+			if v, err = c.Authorize(ctx, "example.org"); err == nil {
+				val = showAuthz(v)
+			}
+		case "F":
+			var v [][]byte
+			if v, err = c.FetchCert(ctx, base+"cert", true); err == nil {
+				val = fmt.Sprintf("pem/k=%d", len(v))
+			}
+		case "X":
+			var v [][]byte
+			if v, _, err = c.CreateOrderCert(ctx, base+"fin", []byte("csr"), true); err == nil {
+				val = fmt.Sprintf("pem/k=%d", len(v))
+			}
+		case "L":
+			_, err = c.ListCertAlternates(ctx, base+"cert")
+		case "U":
+			var v *acme.Account
+			if v, err = c.UpdateReg(ctx, &acme.Account{Contact: []string{"mailto:a@example.org"}}); err == nil {
+				val = v.Status
+			}
+		case "E":
+			var v *acme.Account
+			if v, err = c.GetReg(ctx, ""); err == nil {
+				val = v.Status
+			}
+		case "T":
+			err = c.DeactivateReg(ctx)
+		case "Y":
+			err = c.AccountKeyRollover(ctx, certKey)
+			c.Key = key() // keep the account key of the harness for the following calls
+		case "K":
+			err = c.RevokeCert(ctx, certKey, []byte("cert"), acme.CRLReasonUnspecified)
+		case "k":
+			err = c.RevokeCert(ctx, nil, []byte("cert"), acme.CRLReasonKeyCompromise)
 		case "N":
 			_, err = c.Register(ctx, &acme.Account{}, acme.AcceptTOS)
 		default:
 			return "bad-op"
 		}
-		res = append(res, classify(err))
+		cl := classify(err)
+		switch call {
+		case "O", "Q", "V", "A", "C", "G", "W", "Z", "F", "X", "U", "E":
+			if err == nil {
+				cl = "ok=" + val
+			}
+		}
+		res = append(res, cl)
 	}
 	return fmt.Sprintf("req=%s res=%s pool=%d", hx.JoinStrs(srv.reqs), hx.JoinStrs(res), acme.VerifNonceCount(c))
 }
@@ -301,6 +503,79 @@ func exec(line string) string {
 var badNonceTypes = []string{"urn:ietf:params:acme:error:badNonce", "urn:acme:error:badNonce", "urn:ietf:params:acme:error:BADNONCE", "x:BadNonce"}
 var otherTypes = []string{"urn:ietf:params:acme:error:rateLimited", "urn:ietf:params:acme:error:malformed", "urn:ietf:params:acme:error:unauthorized", "badNonce", "urn:ietf:params:acme:error:badNonce:x", "urn:ietf:params:acme:error:accountDoesNotExist", "urn:ietf:params:acme:error:serverInternal"}
 
+var allCalls = []string{"R", "O", "A", "G", "N", "D", "Q", "C", "F", "L", "U", "E", "T", "Y", "K", "k", "Z", "W", "V", "X"}
+
+// bodyToken: what a 2xx body says. Optional members come and go from reply to reply, so a value decoded
+// from an earlier reply (or left over in a reused struct) shows up as a wrong returned object.
+func bodyToken(r *hx.Rand, g *hx.Gen, status string) string {
+	if r.Chance(1, 25) {
+		g.Stat("body.not-json")
+		return "bad"
+	}
+	tok := status
+	for _, m := range []struct {
+		k string
+		v func() string
+	}{
+		{"e", func() string { return strconv.Itoa(r.Range(1, 2000000000)) }},
+		{"w", func() string { return "1" }},
+		{"c", func() string { return strconv.Itoa(r.Range(1, 3)) }},
+		{"i", func() string { return hx.Pick(r, []string{"example.org", "a.example.net"}) }},
+		{"z", func() string { return strconv.Itoa(r.Range(1, 3)) }},
+		{"f", func() string { return "1" }},
+		{"crt", func() string { return "1" }},
+		{"tok", func() string { return hx.Pick(r, []string{"t1", "t2"}) }},
+		{"k", func() string { return strconv.Itoa(r.Range(1, 3)) }},
+	} {
+		if r.Chance(2, 5) {
+			tok += "/" + m.k + "=" + m.v()
+		}
+	}
+	return tok
+}
+
+var bodyStates = []string{"pending", "processing", "valid", "valid", "invalid", "ready", ""}
+
+// genPoll: WaitAuthorization / WaitOrder / CreateOrderCert against a CA that answers several polls
+func genPoll(g *hx.Gen) {
+	r := g.R
+	call := hx.Pick(r, []string{"W", "V", "X", "W", "V"})
+	n := 0
+	fresh := func() string { n++; return fmt.Sprintf("n%d", n) }
+	resp := []string{"200:-:" + fresh()}
+	if call == "X" {
+		st := hx.Pick(r, []string{"valid", "processing", "pending", "ready", "invalid"})
+		resp = append(resp, fmt.Sprintf("200:-:%s@%s", fresh(), bodyToken(r, g, st)))
+	}
+	polls := r.Range(0, 5)
+	for i := 0; i < polls; i++ {
+		switch r.Intn(12) {
+		case 0:
+			resp = append(resp, fmt.Sprintf("503:-:%s", fresh()))
+			g.Stat("poll.5xx-between-polls")
+		case 1:
+			resp = append(resp, fmt.Sprintf("400:urn:ietf:params:acme:error:badNonce:%s", fresh()), "200:-:"+fresh())
+			g.Stat("poll.badNonce-between-polls")
+		default:
+			code := 200
+			if call == "W" && r.Chance(1, 3) {
+				code = 202
+			}
+			resp = append(resp, fmt.Sprintf("%d:-:%s@%s", code, fresh(), bodyToken(r, g, hx.Pick(r, []string{"pending", "processing", "", "deactivated"}))))
+		}
+	}
+	final := hx.Pick(r, []string{"valid", "valid", "valid", "invalid", "ready"})
+	resp = append(resp, fmt.Sprintf("200:-:%s@%s", fresh(), bodyToken(r, g, final)))
+	if call == "X" {
+		resp = append(resp, fmt.Sprintf("200:-:%s@%s", fresh(), bodyToken(r, g, "")))
+	}
+	bo := hx.Pick(r, []string{"0", "1", "3", "nil"})
+	g.Stat("op.poll")
+	g.Stat("poll.call=" + call)
+	g.Stat("poll.final=" + final)
+	g.Emit("http nurl=1 kid=1 bo=%s cancel=0 calls=%s resp=%s", bo, call, strings.Join(resp, ","))
+}
+
 func genHTTP(g *hx.Gen) {
 	r := g.R
 	calls := []string{}
@@ -308,7 +583,7 @@ func genHTTP(g *hx.Gen) {
 		calls = append(calls, "D")
 	}
 	for k := r.Range(1, 5); k > 0; k-- {
-		calls = append(calls, hx.Pick(r, []string{"R", "R", "O", "O", "A", "G", "N", "D"}))
+		calls = append(calls, hx.Pick(r, allCalls))
 	}
 	nextNonce := 0
 	var issued []string
@@ -402,16 +677,22 @@ func genHTTP(g *hx.Gen) {
 				g.Stat("reply.nonce-header-empty")
 			}
 		}
+		if status >= 200 && status <= 299 && r.Chance(3, 4) {
+			nonce += "@" + bodyToken(r, g, hx.Pick(r, bodyStates))
+		}
 		resp = append(resp, fmt.Sprintf("%d:%s:%s", status, prob, nonce))
 	}
-	bo := hx.Pick(r, []int{0, 1, 1, 2, 3, 5, 8})
+	bo := hx.Pick(r, []string{"0", "1", "1", "2", "3", "5", "8", "nil"})
+	if bo == "nil" {
+		g.Stat("backoff.default-nil")
+	}
 	cancel := 0
-	if r.Chance(1, 5) {
+	if bo != "nil" && r.Chance(1, 5) { // the cancelling hook lives in the custom RetryBackoff
 		cancel = r.Range(1, 4)
 		g.Stat("ctx.cancelled-during-backoff")
 	}
 	g.Stat("op.http")
-	g.Emit("http nurl=%d kid=%d bo=%d cancel=%d calls=%s resp=%s", r.Intn(4)/3^1, r.Intn(2), bo, cancel, strings.Join(calls, ","), hx.JoinStrs(resp))
+	g.Emit("http nurl=%d kid=%d bo=%s cancel=%d calls=%s resp=%s", r.Intn(4)/3^1, r.Intn(2), bo, cancel, strings.Join(calls, ","), hx.JoinStrs(resp))
 }
 
 func genPool(g *hx.Gen) {
@@ -472,6 +753,8 @@ func gen(g *hx.Gen) {
 			g.Stat("dbo.default-backoff")
 		} else if i%10 == 9 {
 			genPool(g)
+		} else if i%5 == 3 {
+			genPoll(g)
 		} else {
 			genHTTP(g)
 		}
